@@ -188,7 +188,14 @@ def run_shard(spec, seed, cases, workdir, extra_args=()):
             op = o[i] if i < len(o) else ""
             if line.startswith("bad ") and (op.startswith("placement") or op.startswith("recovery")):
                 # the placement / order monitors judge the I/O trace of an operation against the pre-image: C17 (placement) and C04 (order)
-                tagp = "C04 order monitor" if line.startswith("bad order") else "C17 placement monitor"
+                if line.startswith("bad member"):
+                    # the recorded recovery trace is not the trace of the recovery choreography (Store/SyncGenRec.lean)
+                    tagp = "C03 recovery choreography"
+                elif line.startswith("bad order: choreography"):
+                    # the recorded trace of an operation is not a run of the sync choreography (Store/SyncGen.lean)
+                    tagp = "C04 sync choreography"
+                else:
+                    tagp = "C04 order monitor" if line.startswith("bad order") else "C17 placement monitor"
                 r["oracle"].append(f"{tagp}: {line} ({op})")
             elif line.startswith("bad "):
                 r["oracle"].append(f"C16 image monitor: {line} ({op})")
